@@ -275,6 +275,38 @@ NEEDS = {
             'same let: (let ((x y) (y 1)) (+ x y))',
     'C17f': 'selector positions half-converted to 1-based: singular '
             'declare-datatype with RemoveDatatypeIdentity',
+    # fifth wave
+    'C01g': 'temporary file committed in finally: a fault (EFBIG, interrupt) '
+            'during a rewrite of the output leaves a prefix of the accepted '
+            'candidate',
+    'C01h': '"unable to minimize" writes the re-rendered input: a run with '
+            'no accepted step on an input the parser does not reproduce '
+            'token for token',
+    'C03g': 'InlineDefinedFuns compares by identity: after a rename makes a '
+            'definition call itself, inlining proposes an equal copy (no-op '
+            'accepted forever)',
+    'C03h': 'a let binder shadowing a declared symbol is not registered as '
+            'let-bound: LetSubstitution <-> ReplaceByVariable 2-cycle',
+    'C05g': 'parallel ddmin worker records the hash of a new input before '
+            'unpickling and returns on the abort flag: later tasks applied '
+            'to the superseded input (interleaving inside the main process)',
+    'C05h': 'reduce() swallows an exception escaping a second-stage mutator '
+            'application and continues from the stale input: a transient '
+            'fault after an adopted step',
+    'C10g': 'proc.wait() after the kill turns a timed-out run into exit -9: '
+            'golden run dying by SIGKILL, outputs ignored, a hanging '
+            'candidate',
+    'C10h': 'validation of --match-err chained by elif: both --match-out and '
+            '--match-err given, the stderr string missing from the golden '
+            'run',
+    'C13g': 'last (granularity 1) round of a mutator not re-duplicated: a '
+            'sharing step accepted in that round, then another mutator',
+    'C13h': 'reduplicate copies a repeated compound node by a pickle round '
+            'trip (ids preserved)',
+    'C18g': 'time limit shrinks after each accepted check: slow golden run, '
+            'a fast accepted check, then a slow one in one run only',
+    'C18h': 'sequential ddmin writes the output in a background thread: '
+            'large output, fast command, two consecutive accepted subsets',
 }
 # checks of other properties that also see a change
 ALSO = {'C02c': ['C13'], 'C02d': ['C14'], 'C06d': ['C02'], 'C01c': ['C07'], 'C11c': ['C15'], 'C10d': ['C04'], 'C17c': ['C16'],
@@ -282,7 +314,8 @@ ALSO = {'C02c': ['C13'], 'C02d': ['C14'], 'C06d': ['C02'], 'C01c': ['C07'], 'C11
         'C01b': ['C09'], 'C02b': ['C04'], 'C04b': ['C02'], 'C15b': ['C11'],
         'C13a': ['C12'], 'C11b': ['C17'], 'C17b': ['C11'],
         'C13e': ['C12'], 'C01f': ['C09'], 'C09e': ['C01'], 'C02f': ['C01'],
-        'C03f': ['C05'], 'C11f': ['C13']}
+        'C03f': ['C05'], 'C11f': ['C13'], 'C01g': ['C06'],
+        'C10g': ['C01'], 'C10h': ['C04'], 'C18h': ['C06']}
 
 
 def sh(cmd, timeout=7200):
